@@ -28,11 +28,11 @@ def events(ctx):
     for n in range(0, 258):
         yield record("lv.rt", {"v": rnd_bytes(rng, n), "sfx": rnd_bytes(rng, rng.choice([0, 0, 3]))})
         yield record("tlv.rt", {"t": rng.choice([0, 1, 2, 4, 5, 6]), "v": rnd_bytes(rng, n), "sfx": rnd_bytes(rng, rng.choice([0, 0, 3]))})
-    for _ in range(ctx.q(6000, 200000)):
+    for _ in range(ctx.q(20000, 600000)):
         cls = rng.choice(CLASSES)
         via = rng.choice(["unpack", "unpack", "from_tlv", "holder"])
         yield record("ctlv.rt", {"cls": cls, "p": rnd_ctlv(rng, cls), "sfx": rnd_bytes(rng, rng.choice([0, 0, 2, 5])), "via": via})
-    for _ in range(ctx.q(3000, 100000)):
+    for _ in range(ctx.q(10000, 300000)):
         n = rng.choice([0, 1, 2, 3, 4, 6, 10])
         b = rnd_bytes(rng, n)
         if b and rng.random() < 0.8:
